@@ -121,7 +121,17 @@ fn generate(rng: &mut Rng, deep: bool) -> Scn {
     let mut ops: Vec<(Op, &'static str)> = Vec::new();
     let mut cur = 0u8; // unknown initial state; only used for biasing
     let mut prev = 0u8;
-    while ops.len() < n_ops {
+    // A marathon run continues the finished schedule with a long tail drawn from a stream of its
+    // own, forked from one extra value at the end of the main stream (all other runs, and the
+    // first part of this one, stay what they were).
+    let mut target_ops = n_ops;
+    let mut tail_rng: Option<Rng> = None;
+    loop {
+    while ops.len() < target_ops {
+        let rng: &mut Rng = match tail_rng.as_mut() {
+            Some(r) => r,
+            None => &mut *rng,
+        };
         if rng.chance(p_event) {
             let burst = if rng.chance(p_burst) { rng.range(2, 4) } else { 1 };
             let mut flick: Option<(u8, u8)> = None;
@@ -170,6 +180,18 @@ fn generate(rng: &mut Rng, deep: bool) -> Scn {
             (period, "none")
         };
         ops.push((Op::Advance(dt), f));
+    }
+    if tail_rng.is_some() {
+        break;
+    }
+    let fork = rng.next_u64();
+    if fork % 97 == 0 {
+        let mut r = Rng::new(fork ^ 0x6d61_7261_7468_6f6e);
+        target_ops = ops.len() + r.range(250, if deep { 4500 } else { 1500 }) as usize;
+        tail_rng = Some(r);
+    } else {
+        break;
+    }
     }
     Scn { pair, ops }
 }
